@@ -44,11 +44,27 @@ Definition set_order (st : state) (g : gl) : state :=
 Definition set_dropna (st : state) (b : bool) : state :=
   mkState (st_kind st) (st_order st) (st_nan st) (st_default st) b (st_odt st) (st_lpv st).
 
+(* _get_labels_per_values after the repair "fix: labels follow their groups when the missing-value
+   group is not the last one": the labels are built "non-missing leaders in list order, then
+   str_nan" and are now zipped with the leaders IN THAT ORDER (ordered_values), wherever str_nan
+   sits in the list (an edit with a NEW kept name appends it after '__NAN__').  get_labels only
+   depends on the leaders with str_nan filtered out, so this is Labels.labels_per_values applied to
+   the order whose list part is rearranged "str_nan last" (content untouched). *)
+Definition nan_last (nan : val) (ks : list val) : list val :=
+  filter (fun v => py_neq v nan) ks ++ (if mem nan ks then [nan] else []).
+
+Definition norm_gl (nan : val) (g : gl) : gl := mkGL (nan_last nan (keys g)) (content g).
+
+Definition fitted_state_fix (k : kind) (g : gl) (nan dflt : val) (dropna : bool) (o : odtype)
+  (tables : list fmt_table) : state :=
+  mkState k g nan dflt dropna o
+          (labels_per_values k o (fmt_of tables nan g) nan (norm_gl nan g)).
+
 (* self.labels_per_values = self._get_labels_per_values(self.output_dtype): the table is
    recomputed from the order exactly as BaseDiscretizer.fit() does *)
 Definition refresh (tables : list fmt_table) (st : state) : state :=
-  fitted_state_auto (st_kind st) (st_order st) (st_nan st) (st_default st) (st_dropna st)
-                    (st_odt st) tables.
+  fitted_state_fix (st_kind st) (st_order st) (st_nan st) (st_default st) (st_dropna st)
+                   (st_odt st) tables.
 
 (* if not order.contains(v): order.append(v) *)
 Definition ensure (g : gl) (v : val) : gl := if contains g v then g else append g v.
